@@ -102,6 +102,11 @@ var props = map[string]propSpec{
 		Rule: "the harness is built with the race detector. Sub-check call: rapid draws one of 82 exported entry points (every method and function of the package, the fmt.Formatter/Scanner paths through Sprintf/Sscan/Sscanf, encoding paths) with arguments from the all-pattern Decimal generator and hostile scalars (ints 0, +-1, +-35, +-6111, +-6176, +-7000, +-100000, 2^15, 2^16, int and int32 extremes; precisions and widths up to 100001; rounding-mode bytes 0..255 incl. invalid ones; format specs from a grammar and from noise; strings and byte slices of random bytes, mutated literals, 70000-digit numerals, long '_' runs, JSON fragments; arbitrary Compose parts; big.Int/Rat/Float inputs) under a DefaultRoundingMode that may itself be invalid; asserted: no panic except the documented set, and those must panic; inputs (byte slices, big values), DefaultRoundingMode and a string returned earlier are unchanged; the same call twice gives identical bits; a watchdog reports any evaluation exceeding 120 s with its input. Sub-check concurrent: a generated list of 2..24 calls is executed by 2..16 goroutines in different orders for 1..3 rounds on shared argument values; every result must equal the sequential one and the race detector must stay silent (a detector abort is recovered from an in-flight case file). Non-trivial = call with a finite non-zero first operand, every concurrent list; distinct = distinct call or list.",
 		Assumptions: append([]string{"the Go race detector (happens-before based) reports unsynchronised conflicting accesses that occur in the executed workload; interleavings are not enumerated", "precisions/widths above 100000 are outside the stated domain and are not generated for Format/Append"}, commonAssumptions...),
 	},
+	"C17": {
+		QuickShards: 8, ThoroughShards: 16,
+		Rule: "rapid draws arguments for Sqrt and Cbrt: all patterns, perfect squares/cubes of 1..17 / 1..11-digit integers +-1 unit at exponents of every residue, the Decimals on either side of ((c+1/2)*10^q)^k for full-precision c (roots as close to a rounding midpoint as a 34-digit argument allows), subnormal and top-of-range arguments, short coefficients at exponents -60..60; the result r is decided by the statement's own integer test ((c*1e20 -/+ (5e19+1)) * 10^(q-20))^k <= |d| <= ..., with u the format spacing at r; zeros, infinities, NaN and negative arguments per the statement. Non-trivial = argument that is not a perfect power; distinct = distinct (bits, function).",
+		Assumptions: commonAssumptions,
+	},
 	"C01": {
 		QuickShards: 8, ThoroughShards: 16,
 		Rule: "rapid draws operand pairs (independent; exponent gap -45..45; tie/near-tie constructor at the 34/35-digit boundary; near-cancellation across cohorts; swallowed operand up to gap 12287; zeros; overflow edge) and add/sub; every pair is evaluated under all 6 modes and under all 6 DefaultRoundingMode values against the exact integer sum rounded by ref.RoundX. Non-trivial = the exact sum is not representable (rounding decides) or the operands cancel exactly; distinct = distinct (x bits, y bits, op).",
